@@ -46,7 +46,7 @@ def main(tier_, replay=None):
     gate = common.grep_gate()
     proofs_ok = b["ok"] and not gate
     rng = random.Random(seed * 13 + 17)
-    all_b = [0, 1, 2, 3, 4]
+    all_b = [0, 1, 2, 3, 4, 5, 6]
     scenarios = []
     for pair in itertools.combinations(all_b, 2):
         ivs = interleavings(pair)
